@@ -1375,6 +1375,29 @@ def mon_expect_reads(rr):
     return out
 
 
+def gen_oddcache_programs():
+    """C15: a cache directory whose NAME is not valid UTF-8 (harness op `oddcache`): everything stays inside it."""
+    return [Program(f"oddcache-{fl}", [f"oddcache {fl}"], model=False, tags={"oddcache": True, "variety": ("oddcache", fl)}) for fl in "sa"]
+
+
+def mon_oddcache(rr):
+    out = []
+    if not rr.impl:
+        return out
+    t = toks(rr.impl[0])
+    sig = {"op": "oddcache", "api": rr.prog.ops[0].split(" ")[1]}
+    if t[0] != "ok" or len(t) < 3:
+        return [Failure("oddcache_failed", 0, f"operations in a cache directory with a non-UTF-8 name -> {' '.join(t[:3])[:60]}", sig=sig)]
+    done, steps = t[1].split("/")
+    if done != steps:
+        out.append(Failure("oddcache_failed", 0, f"only {t[1]} steps in a cache directory with a non-UTF-8 name answered ok", sig=sig))
+    names = [bytes.fromhex(x) for x in t[2].split(",") if x]
+    stray = [n for n in names if n not in (b"odd-\xff", b"out", b"tgt")]
+    if stray:
+        out.append(Failure("outside_cache_dir", 0, f"working in the cache directory b'odd-\\xff' created {stray[:3]} next to it", sig=sig))
+    return out
+
+
 def gen_abandon_programs(r, n):
     progs = []
     for i in range(n):
@@ -1869,7 +1892,7 @@ def gen_linkto_programs(r, n):
         ops = [f"put tgt/{name} {hx(d)}"]
         tags = {"data": d, "key": key, "form": form}
         mode = r.pick(["oneshot", "oneshot_hash", "partial", "opts_bad_size", "opts_bad_sri", "preexisting", "partial_cd",
-                       "opts_small_size", "relink", "relink_same", "relink_self"])
+                       "opts_small_size", "relink", "relink_same", "relink_self", "two_cwds"])
         if mode == "opts_small_size" and len(d) == 0:
             mode = "opts_bad_size"
         if mode == "relink":
@@ -1884,6 +1907,14 @@ def gen_linkto_programs(r, n):
             elif how == "rewrite":
                 ops.append(f"put tgt/gone{i} {hx(d + b' rewritten by its owner')}")
             tags["relink"] = how
+        if mode == "two_cwds":
+            # the process links a relative path from one working directory and then - this program's link - the same
+            # relative NAME from another one, where it is a different file: each link means the file named at ITS time
+            ops.append("mkdir w1")
+            ops.append(f"put w1/{name} {hx(b'the file of that name in the first directory')}")
+            ops.append(f"link_to_cd {r.pick('sa')} c0 {hx(b'first-' + key[:8])} {name} w1")
+            ops.append(f"link_to_cd {fl} c0 {hx(key)} {name} tgt")
+            tags["form"] = "rel"
         if mode in ("relink_same", "relink_self"):
             # the file is linked already (under another key): linking it again - by its own path, or through the
             # cache's symlink for it - must answer ok, leave the address leading to the file (not to itself) and
